@@ -158,8 +158,145 @@ theorem fwdList_facts (isPrint : Char → Bool) (hnl : isPrint '\n' = false) (in
       rw [this]; simp
     simp [listLit, e]
 
+/-! ### Floats: `normDec (formatFloat t) = t` for canonical decimal text -/
+
+theorem takeWhile_digits_dot (ip rest : List Char) (h : ∀ c ∈ ip, isDigit c = true) :
+    (ip ++ '.' :: rest).takeWhile (· ≠ '.') = ip := by
+  induction ip with
+  | nil => simp
+  | cons c cs ih =>
+    have hc : c ≠ '.' := by intro e; subst e; simp [isDigit] at h
+    have := ih (fun x hx => h x (by simp [hx]))
+    simp only [List.cons_append, List.takeWhile_cons, hc, ne_eq, not_false_eq_true, decide_true, if_true, this]
+
+theorem dropWhile_digits_dot (ip rest : List Char) (h : ∀ c ∈ ip, isDigit c = true) :
+    (ip ++ '.' :: rest).dropWhile (· ≠ '.') = '.' :: rest := by
+  induction ip with
+  | nil => simp
+  | cons c cs ih =>
+    have hc : c ≠ '.' := by intro e; subst e; simp [isDigit] at h
+    have := ih (fun x hx => h x (by simp [hx]))
+    simp only [List.cons_append, List.dropWhile_cons, hc, ne_eq, not_false_eq_true, decide_true, if_true, this]
+
+theorem stripLeading_ne (c : Char) (cs : List Char) (hc : c ≠ '0') : stripLeadingZeros (c :: cs) = c :: cs := by
+  rw [stripLeadingZeros]
+  intro cs' e; exact hc (by cases e; rfl)
+
+theorem stripTrailing_id (fp : List Char) (h : ∀ t, fp ≠ t ++ ['0']) : stripTrailingZeros fp = fp := by
+  simp only [stripTrailingZeros]
+  have : stripLeadingZeros fp.reverse = fp.reverse := by
+    cases hr : fp.reverse with
+    | nil => rfl
+    | cons c cs =>
+      have hc : c ≠ '0' := by
+        intro e; subst e
+        have : fp = cs.reverse ++ ['0'] := by
+          have := congrArg List.reverse hr; simpa using this
+        exact h _ this
+      exact stripLeading_ne c cs hc
+  rw [this, List.reverse_reverse]
+
+/-- `normDec` after the sign has been split off. -/
+def normBody (neg : Bool) (body : List Char) : List Char :=
+  let ip := body.takeWhile (· ≠ '.')
+  let fp := (body.dropWhile (· ≠ '.')).drop 1
+  let ip' := match stripLeadingZeros ip with
+    | [] => ['0']
+    | r => r
+  let fp' := stripTrailingZeros fp
+  (if neg then ['-'] else []) ++ ip' ++ (if fp' = [] then [] else '.' :: fp')
+
+theorem normDec_neg (r : List Char) : normDec ('-' :: r) = normBody true r := rfl
+
+theorem normDec_pos (c : Char) (r : List Char) (hc : c ≠ '-') : normDec (c :: r) = normBody false (c :: r) := by
+  rw [normDec]
+  · rfl
+  · intro r' e; exact hc (by cases e; rfl)
+
+theorem normBody_float (neg : Bool) (ip fp : List Char) (hip : ∀ c ∈ ip, isDigit c = true) (hne : ip ≠ [])
+    (hlead : ip = ['0'] ∨ ∀ t, ip ≠ '0' :: t) (hfp : fp = ['0'] ∨ ∀ t, fp ≠ t ++ ['0']) :
+    normBody neg (ip ++ '.' :: fp) =
+      signText neg ++ ip ++ (if fp = ['0'] then [] else if fp = [] then [] else '.' :: fp) := by
+  have hfp' : (if stripTrailingZeros fp = [] then [] else '.' :: stripTrailingZeros fp) =
+      (if fp = ['0'] then [] else if fp = [] then ([] : List Char) else '.' :: fp) := by
+    rcases hfp with rfl | hfp
+    · simp [stripTrailingZeros, stripLeadingZeros]
+    · rw [stripTrailing_id fp hfp]
+      have : fp ≠ ['0'] := fun e => hfp [] (by simpa using e)
+      simp [this]
+  have hstrip : (match stripLeadingZeros ip with | [] => ['0'] | r => r) = ip := by
+    cases ip with
+    | nil => exact absurd rfl hne
+    | cons c cs =>
+      by_cases hc0 : c = '0'
+      · rcases hlead with h | h
+        · simp only [List.cons.injEq] at h
+          obtain ⟨rfl, rfl⟩ := h
+          rfl
+        · exact absurd (by rw [hc0]) (h cs)
+      · rw [stripLeading_ne c cs hc0]
+  simp only [normBody, takeWhile_digits_dot ip fp hip, dropWhile_digits_dot ip fp hip, List.drop_succ_cons,
+    List.drop_zero, hstrip, hfp', signText]
+
+/-- The canonical decimal text of a float64 (the representation of `Val.float`; what `normDec` yields):
+an optional `-`, an integer part without a redundant leading zero, and a fraction without a trailing
+zero, absent when it is zero. -/
+def CanonFloat (t : List Char) : Prop :=
+  ∃ neg ip fp, t = signText neg ++ ip ++ (if fp = [] then [] else '.' :: fp) ∧ ip ≠ [] ∧
+    (∀ c ∈ ip, isDigit c = true) ∧ (∀ c ∈ fp, isDigit c = true) ∧
+    (ip = ['0'] ∨ ∀ u, ip ≠ '0' :: u) ∧ (∀ u, fp ≠ u ++ ['0'])
+
+/-- `formatFloat` prints a canonical float as `-?d+.d+` (the first numeric alternative of `item`), and
+the parser's `ParseFloat` (= `normDec` on the text) gives the same float back. -/
+theorem float_roundtrip (t : List Char) (h : CanonFloat t) :
+    ∃ neg ip fp', fmtFloat t = floatText neg ip fp' ∧ ip ≠ [] ∧ (∀ c ∈ ip, isDigit c = true) ∧
+      (∀ c ∈ fp', isDigit c = true) ∧ normDec (fmtFloat t) = t := by
+  obtain ⟨neg, ip, fp, rfl, hne, hip, hfp, hlead, htrail⟩ := h
+  by_cases hf : fp = []
+  · subst hf
+    have hfmt : fmtFloat (signText neg ++ ip ++ (if ([] : List Char) = [] then [] else '.' :: [])) =
+        floatText neg ip ['0'] := by
+      have hm := signed_no_dot neg ip hip
+      simp only [List.mem_append, not_or] at hm
+      simp [fmtFloat, hm.1, hm.2, floatText]
+    refine ⟨neg, ip, ['0'], hfmt, hne, hip, by simp [isDigit], ?_⟩
+    rw [hfmt]
+    have hb := normBody_float neg ip ['0'] hip hne hlead (Or.inl rfl)
+    cases neg with
+    | true =>
+      have : floatText true ip ['0'] = '-' :: (ip ++ '.' :: ['0']) := by simp [floatText, signText]
+      rw [this, normDec_neg, hb]; simp [signText]
+    | false =>
+      cases ip with
+      | nil => exact absurd rfl hne
+      | cons c cs =>
+        have hc : c ≠ '-' := isDigit_ne_minus c (hip c (by simp))
+        have : floatText false (c :: cs) ['0'] = c :: (cs ++ '.' :: ['0']) := by simp [floatText, signText]
+        rw [this, normDec_pos c _ hc]
+        have hb' : normBody false (c :: (cs ++ '.' :: ['0'])) = _ := hb
+        rw [hb']; simp [signText]
+  · have hfmt : fmtFloat (signText neg ++ ip ++ (if fp = [] then [] else '.' :: fp)) = floatText neg ip fp := by
+      simp [fmtFloat, hf, floatText]
+    refine ⟨neg, ip, fp, hfmt, hne, hip, hfp, ?_⟩
+    rw [hfmt]
+    have hn0 : fp ≠ ['0'] := fun e => htrail [] (by simpa using e)
+    have hb := normBody_float neg ip fp hip hne hlead (Or.inr htrail)
+    cases neg with
+    | true =>
+      have : floatText true ip fp = '-' :: (ip ++ '.' :: fp) := by simp [floatText, signText]
+      rw [this, normDec_neg, hb]; simp [signText, hf, hn0]
+    | false =>
+      cases ip with
+      | nil => exact absurd rfl hne
+      | cons c cs =>
+        have hc : c ≠ '-' := isDigit_ne_minus c (hip c (by simp))
+        have : floatText false (c :: cs) fp = c :: (cs ++ '.' :: fp) := by simp [floatText, signText]
+        rw [this, normDec_pos c _ hc]
+        have hb' : normBody false (c :: (cs ++ '.' :: fp)) = _ := hb
+        rw [hb']; simp [signText, hf, hn0]
+
 set_option linter.unusedVariables false in
-/-- The values of the flat fragment proved so far: int64, nil, bool, ANY byte string (a string whose
+/-- The values of the flat fragment proved so far: int64, float64 (canonical decimal text), nil, bool, ANY byte string (a string whose
 quoted form is exactly a timestamp is read by the timestamp alternative of `item`, with the same
 value: `evVal`), non-empty lists of int64, and a comparison (`== != < <= > >= ><`) with an int64 or
 with a list of int64.  (`isPrint` is kept as a parameter for the callers.) -/
@@ -170,6 +307,7 @@ def SimpleVal (isPrint : Char → Bool) : Val → Prop
   | .str bs => ∀ b ∈ bs, b < 256
   | .cond op (.int i) => op ∈ cmpOps ∧ minInt64 ≤ i ∧ i ≤ maxInt64
   | .list vs => FwdList vs
+  | .float t => CanonFloat t
   | .cond op (.list vs) => op ∈ cmpOps ∧ IntList vs
   | _ => False
 
@@ -183,6 +321,7 @@ def evVal (isPrint : Char → Bool) : Val → List Ev
     else [.text (quote isPrint bs), .act .addQuotedVal]
   | .cond op (.int i) => [.act (.setCond op), .text (intDigits i), .act .addNumVal]
   | .list vs => (listLit (vs.map (fwdLVal isPrint))).evs
+  | .float t => [.text (fmtFloat t), .act .addNumVal]
   | .cond op (.list vs) => .act (.setCond op) :: .act .startList :: ((intsOf vs).flatMap evIntItem ++ [.act .endList])
   | _ => []
 
@@ -253,7 +392,19 @@ theorem exec_arg (isPrint : Char → Bool) (hnl : isPrint '\n' = false) (k : Key
         simp_all [stepAct, addVal]
       exact exec_act_ok evs hs
   | uint n => exact absurd hv (by simp [SimpleVal])
-  | float t => exact absurd hv (by simp [SimpleVal])
+  | float t =>
+    obtain ⟨neg, ip, fp', hfmt, _, _, _, hnorm⟩ := float_roundtrip t hv
+    have hnum : numVal (fmtFloat t) = .ok (.float t) := by
+      have := numVal_float neg ip fp'
+      rw [← hfmt, hnorm] at this; exact this
+    refine ⟨fmtFloat t, ?_⟩
+    simp only [evVal, List.cons_append, List.nil_append]
+    rw [exec_text]
+    have hs : stepAct { q with text := fmtFloat t, stack := { e with lastField := k } :: rest } .addNumVal =
+        .ok { q with text := fmtFloat t, stack := { e with args := insert k (.float t) e.args } :: rest } := by
+      cases e
+      simp_all [stepAct, addNumVal, bind, Except.bind]
+    exact exec_act_ok evs hs
   | list vs =>
     obtain ⟨init, last, rfl, h1, h2, h3⟩ := hv
     obtain ⟨_, hsem, _, hval⟩ := fwdList_facts isPrint hnl init last h1 h2 h3
@@ -607,7 +758,11 @@ theorem parg_ok (isPrint : Char → Bool) (hnl : isPrint '\n' = false) (kv : Key
     · have := arg_eq_ok (vs := '"' :: (quoteBody isPrint bs ++ '"' :: d :: r)) hk' (by simp [NoWs, isWs]) (value_of_item hitem)
       simpa [fmtVal, evVal, quote, hsh] using this
   | uint n => exact absurd hv (by simp [SimpleVal])
-  | float t => exact absurd hv (by simp [SimpleVal])
+  | float t =>
+    obtain ⟨neg, ip, fp', hfmt, hne, hip, hfp, _⟩ := float_roundtrip t hv
+    have hitem := item_float1_ok neg ip fp' r d hne hip hfp hdel
+    have := arg_eq_ok (vs := floatText neg ip fp' ++ d :: r) hk' (floatText_noWs neg ip fp' _ hip) (value_of_item hitem)
+    simpa [fmtVal, evVal, hfmt] using this
   | list vs =>
     obtain ⟨init, last, rfl, h1, h2, h3⟩ := hv
     obtain ⟨hsyn, _, htext, _⟩ := fwdList_facts isPrint hnl init last h1 h2 h3
